@@ -306,6 +306,46 @@ var c01Templates = []tmpl{
 		}
 		return outInt(s)
 	}},
+	{"nested-switch-continue-in-range", "r := []; for _, v := range [a, b, c] {\n switch v {\n case 1:\n  switch v {\n  case 1:\n   continue\n  }\n }\n r.append(v) }; len(r)", func(a, b, c, n int64) tOut {
+		k := int64(0)
+		for _, v := range []int64{a, b, c} {
+			if v != 1 {
+				k++
+			}
+		}
+		return outInt(k)
+	}},
+	{"nested-switch-break-in-for", "s := 0; for i := 0; i < 3; i++ {\n switch i {\n default:\n  switch a {\n  case 7:\n   break\n  }\n }\n s += 1 }; s", func(a, b, c, n int64) tOut {
+		if a == 7 {
+			return outInt(0)
+		}
+		return outInt(3)
+	}},
+	{"closure-with-default-argument", `mk := func() { base := a; return func(x, y=5) { return base + x + y } }; g := mk(); g(b) + g(b, c)`, func(a, b, c, n int64) tOut {
+		return outInt((a + b + 5) + (a + b + c))
+	}},
+	{"for-in-list", `s := 0; for v in [a, b, c] { s += v }; s`, func(a, b, c, n int64) tOut { return outInt(a + b + c) }},
+	{"for-in-break", `s := 0; for v in [a, b, c] { if v == 0 { break }; s += v }; s`, func(a, b, c, n int64) tOut {
+		s := int64(0)
+		for _, v := range []int64{a, b, c} {
+			if v == 0 {
+				break
+			}
+			s += v
+		}
+		return outInt(s)
+	}},
+	{"for-expression-post-clause", `i := 0; step := func() { i = i + 1; return i }; t := 0; for ; i < n; step() { t += a }; t`, func(a, b, c, n int64) tOut {
+		t := int64(0)
+		for i := int64(0); i < n; i++ {
+			t += a
+		}
+		return outInt(t)
+	}},
+	{"multi-line-map-literal-order", "t := func(x) { emit(x); return x }\nm := {\n\t\"p\": t(a),\n\t\"q\": t(b),\n\t\"r\": t(c),\n\t\"q\": t(a),\n}\nm[\"r\"]", func(a, b, c, n int64) tOut {
+		// which of two duplicate keys wins is not specified; the evaluation order is
+		return outEmit(rvInt(c), a, b, c, a)
+	}},
 	{"loop-switch-continue", "s := 0; for i := 0; i < n; i++ {\n switch i {\n case 1:\n  continue\n }\n s += 1 }; s", func(a, b, c, n int64) tOut {
 		s := int64(0)
 		for i := int64(0); i < n; i++ {
@@ -369,13 +409,9 @@ func c01RunTemplate(ti int, values bool, stack bool) {
 	}
 }
 
-// HarnessC01Templates runs one third of the template family per quick run
-// (rotating with VERIF_SEED) and all of it in the thorough tier.
+// HarnessC01Templates runs the whole template family in both tiers.
 func HarnessC01Templates() {
 	ti := verifrt.Choose(len(c01Templates))
-	if !verifrt.Thorough() {
-		verifrt.Assume(ti%3 == verifrt.Seed()%3)
-	}
 	c01RunTemplate(ti, true, false)
 }
 
